@@ -73,3 +73,12 @@ package neuronjson
 //@   assert at "size := endI - begI": forall j int :: {mdb.ids[j]} begI <= j && j < endI ==> bodyidBeg <= mdb.ids[j] && mdb.ids[j] <= bodyidEnd
 //@   assert at "size := endI - begI": forall j int :: {mdb.ids[j]} 0 <= j && j < begI ==> mdb.ids[j] < bodyidBeg
 //@   assert at "size := endI - begI": forall j int :: {mdb.ids[j]} endI <= j && j < len(mdb.ids) ==> mdb.ids[j] > bodyidEnd
+
+// ServeHTTP (C11, C20): no variable of the request handler is written by a goroutine it starts and also
+// used by the handler afterwards. (The Kafka-notification goroutine of POST key assigned the handler's
+// `err`, racing with the assignment and test of PutData's error: a failed write could be acknowledged.)
+// Structural contract: the dispatcher is too large to execute symbolically; only the goroutine/parent race
+// obligations are generated for it.
+//@ func Data.ServeHTTP
+//@   prop C11 C20
+//@   structural
